@@ -190,6 +190,43 @@ def tampered_accepted_offsetting(f):
     return (len(found) > 0), found[:1]
 
 
+def batch_relation_disagrees(f):
+    """C02/C03/C08: on a batch of the finding's shape (same aggregation factors, capacities, order) the library's verdict differs from the independent
+    per-member reference verifier (refimpl.rs): an all-valid batch refused, or a batch with one invalid member (each position, several proof
+    elements) accepted; otherwise the offsetting-defects attack"""
+    c = f.cfg
+    n, x = c['n'], c.get('x', 1)
+    ms = [(mm.get('m', 1), mm.get('cap', mm.get('m', 1))) for mm in c['members']]
+    found = []
+    variants = [[{'m': m, 'cap': cap, 'label': 'member %d' % i} for i, (m, cap) in enumerate(ms)]]
+    for pos, (m, cap) in enumerate(ms):
+        rounds = (n * m).bit_length() - 1
+        for e in sorted({0, x, x + 3, x + 5 + 2 * max(rounds - 1, 0)}):
+            if e >= x + 5 + 2 * rounds:
+                continue
+            is_scalar = e < x or e in (x + 3, x + 4)
+            t = {'op': 'scalar_add_delta', 'elem': e} if is_scalar else {'op': 'point_add_delta_basis', 'elem': e, 'basis': {'b': 'h'}}
+            v = [dict(mm) for mm in variants[0]]
+            v[pos] = dict(v[pos], tamper=t)
+            variants.append(v)
+    for members in variants:
+        o = run_replay({'scenario': 'batch', 'n': n, 'x': x, 'members': members, 'actions': ['VerifyOnly', 'RecoverAndVerify']}, 1)
+        if 'crash' in o:
+            return True, o
+        for vr in o.get('verify') or []:
+            ref = vr.get('reference')
+            if not ref or any(r not in (True, False) for r in ref):
+                continue
+            lib_ok = vr['result'] == 'ok'
+            if vr['result'] == 'panic' or lib_ok != all(ref):
+                found.append({'members': members, 'action': vr['action'], 'library': vr['result'], 'reference_per_member': ref})
+        if found:
+            break
+    if found:
+        return True, found[:1]
+    return tampered_accepted_offsetting(f)
+
+
 def probe_unchanged(f):
     """C04/C08: some datum is not bound by the transcript: two verifications that differ in that datum leave the caller's
     transcript in the same state (observed by squeezing bytes from it after verify_batch on the real crates).
